@@ -153,7 +153,7 @@ func init() {
 		Gen: func(seed uint64, run int, tier string) *Case {
 			return genConc("C15", seed, run, concProfile{minWriters: 2, maxWriters: 4, minReaders: 0, maxReaders: 1, maxTxns: 3, maxOps: 4, snapshots: run % 2,
 				wUpdate: 8, wMerge: 4, wInsert: 4, wDeleteOwn: 3, wRangeRead: 2, wRangeWrite: 1, wPointRead: 2, wKey: 6,
-				pAbort: 0.2, pFailInsert: 0.15, multiBlock: 0.5, maxCols: 5, pKeyCol: 0.15, stableRows: [2]int{1, 5}}, knownAvoid("C15", seed, run))
+				pAbort: 0.2, pFailInsert: 0.15, multiBlock: 0.5, maxCols: 5, pKeyCol: 0.15, stableRows: [2]int{1, 5}, ghost: 0.25}, knownAvoid("C15", seed, run))
 		},
 		Exec: func(cs *Case) *World { return runConc(cs, concOracles{stream: true}) },
 		Real: realComponents, Stub: concStub,
@@ -186,14 +186,44 @@ func init() {
 					Cfg: Config{Capacity: 1024, Prefill: &Prefill{Blocks: 2, KeepFull: []int{0, 1}},
 						Params: map[string]int{"str_len": r.Range(30, 70), "rows": []int{16384, 16384, 12000}[r.Intn(3)]}}}
 			}
-			cs := genConc("C13", seed, run, concProfile{minWriters: 1, maxWriters: 3, maxTxns: 3, maxOps: 3, snapshots: 1,
+			prof := concProfile{minWriters: 1, maxWriters: 3, maxTxns: 3, maxOps: 3, snapshots: 1,
 				wUpdate: 8, wMerge: 3, wInsert: 3, wDeleteOwn: 2, wRangeWrite: 1,
-				pAbort: 0.05, multiBlock: 0.4, maxCols: 4, stableRows: [2]int{1, 4}}, knownAvoid("C13", seed, run))
+				pAbort: 0.05, multiBlock: 0.4, maxCols: 4, stableRows: [2]int{1, 4}}
+			if run%5 == 2 {
+				prof.nearlyFull, prof.wInsert, prof.minWriters, prof.pKeyCol, prof.stall = 0.9, 10, 2, 0, 0.7
+			}
+			cs := genConc("C13", seed, run, prof, knownAvoid("C13", seed, run))
 			cs.Cfg.Capacity = []int{1, 64, 1024}[run%3]
-			if cs.Cfg.Prefill != nil {
-				// a block kept full (16K live rows) makes every one of the thousands of restores of a
-				// history read 16K rows: the enumeration is about the byte stream, not about row count
-				cs.Cfg.Prefill.KeepFull, cs.Cfg.Prefill.Holes = nil, nil
+			if cs.Cfg.Prefill != nil && len(cs.Cfg.Prefill.KeepFull) > 0 {
+				if run%5 == 2 {
+					// the snapshotter starts at once while every writer starts late, and it is stalled
+					// after the state part is written with its recorder still open: whole transactions
+					// of the writers, the first of which opens the new block, fall into that window
+					fr := NewRng(seed, uint64(run), 93)
+					cs.Faults = nil
+					for i := range cs.Threads {
+						switch cs.Threads[i].Role {
+						case "snapshot":
+							cs.Threads[i].Arg = 0
+						case "writer":
+							cs.Faults = append(cs.Faults, Fault{Kind: "stall", Role: "writer", At: int(ptStart), N: fr.Range(6, 14)})
+						}
+					}
+					if fr.Chance(0.75) {
+						cs.Faults = append(cs.Faults, Fault{Kind: "stall", Role: "snapshot", At: 9, Arg: 3, N: fr.Range(10, 80)}) // state written, recorder open
+					} else {
+						cs.Faults = append(cs.Faults, Fault{Kind: "stall", Role: "snapshot", At: 1, N: fr.Range(10, 80)}) // before the first block is read
+					}
+					// "new block" histories: the last block is nearly full, so inserts committed while
+					// a snapshot is in progress open a block the state part does not hold and that
+					// exists in the log tail only; every restore reads 16K rows, so only the write
+					// boundaries and a few sampled points are cut
+					cs.Cfg.Params["light"] = 1
+				} else {
+					// a block kept full (16K live rows) makes every one of the thousands of restores of a
+					// history read 16K rows: the enumeration is about the byte stream, not about row count
+					cs.Cfg.Prefill.KeepFull, cs.Cfg.Prefill.Holes = nil, nil
+				}
 			}
 			cs.Cfg.Params["tier_thorough"] = b2i(tier == "thorough")
 			return cs
@@ -205,6 +235,9 @@ func init() {
 			}
 			if cs.World == "biglog" {
 				return runBigLog(cs)
+			}
+			if cs.Cfg.Params["light"] == 1 {
+				bound, samples = 1, 12 // (0 would switch the enumeration off)
 			}
 			return runConc(cs, concOracles{log: true, truncate: [2]int{bound, samples}})
 		},
@@ -229,9 +262,9 @@ func init() {
 				}
 				fr := NewRng(seed, uint64(run), 91)
 				if fr.Chance(0.5) {
-					cs.Faults = []Fault{{Kind: "snap-write-call", At: fr.Range(1, 8)}}
+					cs.Faults = append(cs.Faults, Fault{Kind: "snap-write-call", At: fr.Range(1, 8)})
 				} else {
-					cs.Faults = []Fault{{Kind: "snap-write-byte", N: fr.Intn(1500)}}
+					cs.Faults = append(cs.Faults, Fault{Kind: "snap-write-byte", N: fr.Intn(1500)})
 				}
 				for i := range cs.Threads {
 					if cs.Threads[i].Role == "snapshot" {
